@@ -1,17 +1,18 @@
 #!/venv/bin/python
-"""Regenerate seeded/INDEX.md from the output of tools/selftest.py.   usage: tools/make_index.py <selftest log>"""
+"""Regenerate seeded/INDEX.md from the output of tools/selftest.py.   usage: tools/make_index.py <selftest log> [<later log> ...]   (rows of later logs replace earlier ones)"""
 import ast, json, sys
 from pathlib import Path
 VERIF = Path(__file__).resolve().parent.parent
 rows = {}
-for line in open(sys.argv[1], errors="replace"):
-    line = line.strip()
-    if line.startswith("('") and line.endswith(")"):
-        try:
-            t = ast.literal_eval(line)
-        except Exception:
-            continue
-        rows[t[0]] = t
+for log in sys.argv[1:]:
+    for line in open(log, errors="replace"):
+        line = line.strip()
+        if line.startswith("('") and line.endswith(")"):
+            try:
+                t = ast.literal_eval(line)
+            except Exception:
+                continue
+            rows[t[0]] = t
 seeds = sorted(p.parent.name for p in (VERIF / "seeded").glob("*/meta.json"))
 out = ["# Seeded changes", "",
        "Every directory holds `patch.diff`, `demo.py` (fails with the change, passes without), `notes.md` (the sub-agent's description, incl. what the change needs to manifest) and `meta.json`.",
